@@ -824,3 +824,5 @@ PROPS["C34"]["bounds"] += ("; messages: every shape (none / plaintext text or by
 PROPS["C44"]["functions"].append("ConsensusManagerBlueprint::{get_current_time_v2, compare_current_time_v2, epoch_minute_to_instant, "
                                  "epoch_milli_to_instant} and Instant::compare")
 PROPS["C44"]["bounds"] += "; time queries: every stored clock, every i64 instant, both precisions, all five operators"
+
+PROPS["C37"]["functions"].append("GeneralResourceConstraint::normalize (normalisation preserves the set of accepted balances)")
